@@ -2,3 +2,4 @@
 import DvidModel.Props.C01
 import DvidModel.Props.C06
 import DvidModel.Props.C15
+import DvidModel.Props.C05
